@@ -25,6 +25,10 @@ namespace libcellml {
 
 libcellml::ModelPtr owningModel(const libcellml::ParentedEntityConstPtr &entity)
 {
+    if (entity == nullptr) {
+        return nullptr;
+    }
+
     auto model = std::dynamic_pointer_cast<libcellml::Model>(entity->parent());
     auto component = owningComponent(entity);
     while ((model == nullptr) && (component != nullptr)) {
@@ -37,6 +41,10 @@ libcellml::ModelPtr owningModel(const libcellml::ParentedEntityConstPtr &entity)
 
 libcellml::ComponentPtr owningComponent(const libcellml::ParentedEntityConstPtr &entity)
 {
+    if (entity == nullptr) {
+        return nullptr;
+    }
+
     return std::dynamic_pointer_cast<libcellml::Component>(entity->parent());
 }
 
